@@ -1166,6 +1166,12 @@ class _Page(Flow):
             return UNK
         if isinstance(e, ast.Name):
             return self.get(st, e.id)
+        if isinstance(e, ast.BinOp) and isinstance(e.op, ast.Add):
+            # <argument list> + [limit, index]: list concatenation keeps the tail of what is appended
+            a_, b_ = self.ev(e.left, st), self.ev(e.right, st)
+            if b_ and b_[0] == 'tail':
+                base = a_ if a_ and a_[0] == 'tail' else ('tail',)
+                return self._tail(base + b_[1:])
         if isinstance(e, ast.BinOp) and isinstance(e.op, (ast.Add, ast.Sub)):
             return lin_add(self.ev(e.left, st), self.ev(e.right, st), 1 if isinstance(e.op, ast.Add) else -1)
         if isinstance(e, ast.IfExp):
@@ -1969,6 +1975,11 @@ class _Contrib(Flow):
         ):
             st = (True, trail)  # the range is evaluated as a constraint (member in range)
             return (st,), (st,)
+        if _is_sentinel_test(e, self.var):
+            # the documented "latest" sentinel (-1) is not a run id: an element that fails the test is dropped by design
+            return (st,), ((True, trail),)
+        if isinstance(e, ast.Compare) and len(e.ops) == 1 and _is_sentinel_test(ast.Compare(left=e.left, ops=[{ast.Lt: ast.GtE, ast.LtE: ast.Gt, ast.Eq: ast.NotEq, ast.Gt: ast.LtE, ast.GtE: ast.Lt}.get(type(e.ops[0]), ast.Is)()], comparators=e.comparators), self.var):
+            return ((True, trail),), (st,)  # the complement: x < 0 / x == -1
         if self._mentions(e) and len(trail) < 4:
             txt = norm(e)
             return ((c, trail + ((txt, True),)),), ((c, trail + ((txt, False),)),)
@@ -3012,9 +3023,18 @@ def _rule6(ctx, rep):
                         if isinstance(sub, list) and sub and isinstance(sub[0], ast.stmt):
                             yield from blocks(sub)
 
+            # locals that are pushed after the branch (`term = ...; bound = ...` per arm, `terms.append(term); args.extend(bound)` behind it)
+            pushed_later = {c.args[0].id for c in g.calls() if isinstance(c.func, ast.Attribute) and c.func.attr in ('append', 'extend') and len(c.args) == 1 and isinstance(c.args[0], ast.Name)}
             for blk in blocks(g.node.body):
                 pushed, term = [], None
                 for st in blk:
+                    if isinstance(st, ast.Assign) and len(st.targets) == 1 and isinstance(st.targets[0], ast.Name) and st.targets[0].id in pushed_later:
+                        attrs = [x.attr for x in ast.walk(st.value) if isinstance(x, ast.Attribute) and x.attr in ('start', 'stop')]
+                        if attrs:
+                            pushed += attrs
+                        elif text_of(st.value) is not None and 'run' in text_of(st.value).lower():
+                            term = (st, text_of(st.value))
+                        continue
                     if not (isinstance(st, ast.Expr) and isinstance(st.value, ast.Call) and isinstance(st.value.func, ast.Attribute)):
                         continue
                     c = st.value
